@@ -319,10 +319,11 @@ theorem take_takeWhile_len (p : Nat → Bool) (l : List Nat) :
     · simp [ih]
     · simp
 
-/-- a written type record can be read back: offset fits `i32` and is not `i32::MIN`, the
+/-- a written type record can be read back: offset fits `i32` and lies strictly within 24 hours
+of UTC (an offset of 86400 s or more in magnitude is refused since the repair of F32), the
 designation index points into the table, a NUL follows, and the designation is empty or legal -/
 def TyRecOk (names : List Nat) (t : TyRec) : Prop :=
-  I32r t.off ∧ t.off ≠ I32_MIN ∧ t.abbr < names.length ∧ 0 ∈ names.drop t.abbr
+  I32r t.off ∧ (-86400 < t.off ∧ t.off < 86400) ∧ t.abbr < names.length ∧ 0 ∈ names.drop t.abbr
     ∧ (match nameAt names t.abbr with
         | some n => NameOk n
         | none => True)
@@ -376,7 +377,7 @@ theorem parseType_enc (names : List Nat) (t : TyRec) (hn : names.length < 429496
     | true =>
       simp only [Bool.not_true, Bool.false_eq_true, if_false, if_true]
       unfold Ltt.new
-      rw [if_neg h2]
+      rw [if_neg (by omega)]
     | false =>
       simp only [hemp, Bool.not_false, if_true, Bool.false_eq_true, if_false] at h5 ⊢
       exact ltt_new_ok _ _ _ h2 h5
